@@ -33,6 +33,12 @@ func init() {
 var refStoreCounter int
 
 func NewRefStore() (ref.Store, func()) {
+	s, _, c := NewRefStoreDB()
+	return s, c
+}
+
+// NewRefStoreDB also hands out the database (fault injection through SQL triggers).
+func NewRefStoreDB() (ref.Store, *sql.DB, func()) {
 	refStoreCounter++
 	db, err := sql.Open("sqlite3", fmt.Sprintf("file:verif%d_%d.db?cache=shared&mode=memory", time.Now().UnixNano(), refStoreCounter))
 	if err != nil {
@@ -43,7 +49,7 @@ func NewRefStore() (ref.Store, func()) {
 			panic(err)
 		}
 	}
-	return refsql.NewStore(db), func() { db.Close() }
+	return refsql.NewStore(db), db, func() { db.Close() }
 }
 
 type ingestInput struct {
